@@ -1370,6 +1370,13 @@ where
         )
     }
 
+    pub(crate) fn verif_sketch_table_len(&self) -> usize {
+        self.frequency_sketch
+            .read()
+            .expect("lock poisoned")
+            .verif_table_len()
+    }
+
     pub(crate) fn verif_channel_lens(&self) -> (usize, usize) {
         (self.read_op_ch.len(), self.write_op_ch.len())
     }
